@@ -32,6 +32,10 @@ EX = nd("{urn:x}foo", [["k", "v"], ["{urn:x}j", "a b"]], " ", [
 W_PREFIXED = nd("{urn:x}foo", [["k", "p:bar"]], None, [], None, [["p", "urn:x"]])
 W_NIL = nd("foo", [[L.XSI_NIL, "true"]], None, [], None, [])
 W_NIL_CONTENT = nd("foo", [["k", "v"], [L.XSI_NIL, "false"]], "x", [nd("c", [[L.XSI_NIL, "true"]], None, [], "t", [])], None, [])
+NS_O = [["o", "urn:o"], ["p", "urn:p1"]]
+SCOPED = nd("{urn:o}a", [["kind", "p:outer"]], None, [nd("{urn:o}b", [], None, [
+    nd("{urn:o}c", [[L.XSI_TYPE, "xs:int"]], "5", [], None, NS_O + [["xs", L.XS], ["xsi", L.XSI]]),
+    nd("{urn:o}d", [["ref", "p:thing"]], "t", [], None, [["o", "urn:o"], ["p", "urn:p2"]])], None, NS_O)], None, NS_O)
 TYPED = nd("{urn:a}foo", [[L.XSI_TYPE, "xs:string"], ["k", "v"]], "s", [], "tail")
 TYPED_INT = nd("{urn:a}foo", [[L.XSI_TYPE, "xs:int"]], "5", [], None)
 QN_LOCAL = nd("y", [[L.XSI_TYPE, "xs:QName"]], "w:foo", [], None, L.NSMAP + [["w", "urn:inner"]])
@@ -42,7 +46,7 @@ TYPED_BOOL = nd("{urn:a}z", [[L.XSI_TYPE, "xs:boolean"]], "true", [], None)
 def main():
     os.makedirs(OUT, exist_ok=True)
     cases = []
-    for name, t in [("ex", EX), ("prefixed", W_PREFIXED), ("nil", W_NIL)]:
+    for name, t in [("ex", EX), ("prefixed", W_PREFIXED), ("nil", W_NIL), ("scoped", SCOPED)]:
         cases.append((f"tree-{name}", "c11.tree", {"tree": t}))
     cases.append(("match-other", "c11.match", {"namespace": "##other", "parent": "urn:t", "inherits": True,
                                                 "qnames": ["foo", "{urn:t}foo", "{urn:x}foo"]}))
@@ -57,7 +61,7 @@ def main():
         a = P.anyrt_case(rng, kind, "##any", False, pre, trees)
         cases.append((f"anyrt-{name}", "c11.anyrt", a))
     for name, kind, forest in [("typed-attrs-tail", "mixed", [TYPED]), ("typed-int", "list", [TYPED_INT]),
-                               ("choice-typed", "choice", [TYPED_BOOL]), ("single-three", "single", [EX, W_PREFIXED, EX]),
+                               ("choice-typed", "choice", [TYPED_BOOL]), ("single-three", "single", [EX, W_PREFIXED, EX]), ("scoped", "list", [SCOPED, SCOPED]),
                                ("qname-local-rebound", "list", [QN_LOCAL]), ("qname-default", "mixed", [QN_DEFAULT])]:
         u, desc, ctx = L.host(kind, "##any", None)
         doc = L.host_doc(kind, None, forest)
